@@ -46,6 +46,13 @@ def _run_variant(args):
                     s2 = s2.with_overlay(rel, TRANSFORMS[variant['tname']](src.text(rel)))
                 except AnalysisError:
                     return dict(name=name, status='skipped', why='file missing', t=0)
+        elif variant.get('kind') == 'patch':
+            from .patching import apply as apply_patch, PatchError
+            try:
+                with open(variant['path']) as fh:
+                    s2 = apply_patch(src, fh.read())
+            except (PatchError, AnalysisError, OSError) as e:
+                return dict(name=name, status='skipped', why='patch does not apply to the tree under analysis (%s)' % e, t=0)
         elif variant.get('kind') == 'unparse':
             s2 = src
             for rel in variant['rels']:
@@ -98,6 +105,37 @@ def run_selftest(ctx):
         if v.get('kind') == 'unparse':
             for tname in sorted(TRANSFORMS):
                 variants.append(dict(name='%s@%s' % (tname, v['name']), kind='transform', tname=tname, rels=v['rels'], expect='silent'))
+    # the kept seeded defects of this property (each must be reported by a rule of this property) and every kept benign change
+    # that touches a file this property consults (each must stay silent), replayed in memory from /verif/seeded and /verif/benign
+    verif = os.path.dirname(os.path.dirname(os.path.abspath(__file__)))
+    consulted = set(ctx.src.consulted)
+    for kind_, expect in (('seeded', 'fire'), ('benign', 'silent')):
+        d0 = os.path.join(verif, kind_)
+        if not os.path.isdir(d0):
+            continue
+        for sid in sorted(os.listdir(d0)):
+            pth = os.path.join(d0, sid, 'patch.diff')
+            if not os.path.isfile(pth):
+                continue
+            if kind_ == 'seeded':
+                if sid[:3] != prop:
+                    continue
+                # seeds that this property's own check is not expected to report (recorded in meta.json at acceptance) are listed as a note
+                try:
+                    import json
+                    with open(os.path.join(d0, sid, 'meta.json')) as fh:
+                        by = json.load(fh).get('detected_by', [])
+                except (OSError, ValueError):
+                    by = []
+                if not any(x.startswith(prop + '.') for x in by):
+                    ctx.note('seeded defect %s is not reported by the rules of %s (see DESIGN.md section 11.6)' % (sid, prop))
+                    continue
+            if kind_ == 'benign':
+                with open(pth) as fh:
+                    touched = set(l[6:].strip() for l in fh if l.startswith('+++ b/'))
+                if not (touched & consulted):
+                    continue
+            variants.append(dict(name='%s/%s' % (kind_, sid), kind='patch', path=pth, expect=expect, rule=None, must_name=''))
     base = _findings_of(prop, ctx.src)
     for v in variants:
         v['_base'] = base
